@@ -537,7 +537,6 @@ Qed.
    name never contains this instance's tag "<name>-<hex>" (hex <> hex'): the tag
    could only sit at the end (then hex = hex') or further left, and then the
    separator '-' of the element would have to be one of the hex digits. *)
-Definition is_hexdigit (c : N) : bool := is_digit c || ((97 <=? c) && (c <=? 102)).
 Definition hex20 (s : str) : bool := Nat.eqb (length s) 20 && forallb is_hexdigit s.
 
 Lemma app_same_length_inv {A} (x x' y y' : list A) :
